@@ -945,6 +945,10 @@ class BatchNormF(OpDef):
             ins += [Inp("rm", (c,), differentiable=False), Inp("rv", (c,), differentiable=False, lo=0.1, hi=3)]
         return ins
 
+    def documented_inplace(self, args):
+        # running statistics are updated in training mode (documented)
+        return ("rm", "rv") if (args["training"] and args["track"]) else ()
+
     def extra(self, args, env):
         return {"eps": env.scalar("eps", lo=0, hi=0.5, lo_strict=True, kind="data"),
                 "mom": env.scalar("mom", lo=0, hi=1, lo_strict=True, hi_strict=True, kind="data")}
@@ -993,7 +997,7 @@ class Dropout(OpDef):
 
     def configs(self, tier):
         out = []
-        for s in ([(3,)] if tier == "quick" else [(3,), (2, 2)]):
+        for s in ([(2,)] if tier == "quick" else [(3,), (2, 2)]):
             for p in (0.25, 0.5, 0.0):
                 out.append({"a": L(s), "p": p, "training": True})
             out.append({"a": L(s), "p": 0.5, "training": False})
@@ -1008,6 +1012,9 @@ class Dropout(OpDef):
             m.eval()
         extra["module"] = m
         return m(ts[0])
+
+    def deterministic(self, args):
+        return not args["training"] or args["p"] == 0.0     # a fresh mask per call is the documented behaviour
 
     def reference(self, args, xs, extra):
         return None
